@@ -230,10 +230,13 @@ def check_c04(exe, tier, seed, verdict):
     for j, (data, d_, c_, m_) in enumerate(lsample):
         T_ = ROOT + "/lay%d" % (j % 16)
         ndrop = 2 + j % 3
-        sc = ["rm %s" % hx(T_), "file %s %s" % (hx(T_ + "/etc/c.conf"), hx("m%s1\n" % (d_ or "=")[-1]))]
+        # the main file: group-less keys / sections only / empty in turn (what a merge does with the override's entries depends on
+        # which of these the base has); the merged result is USED (every listing and value) before it is released
+        dl = (d_ or "=")[-1]
+        sc = ["rm %s" % hx(T_), "file %s %s" % (hx(T_ + "/etc/c.conf"), hx(["m%s1\n" % dl, "[M]\nm%s1\n" % dl, ""][j % 3]))]
         sc += ["file %s %s" % (hx(T_ + "/%s/c.conf.d/%02d.conf" % ("usr" if q % 2 else "etc", q)), hx("d%d%s1\n" % (q, (d_ or "=")[-1]))) for q in range(ndrop)]
         sc += ["file %s %s" % (hx(T_ + "/etc/c.conf.d/zz.conf"), hx(data)),
-               "readdirs 1 %s %s %s %s %s %s" % (hx(T_ + "/usr"), hx(T_ + "/etc"), hx("c"), hx("conf"), hx(d_), hx(c_)), "free 1",
+               "readdirs 1 %s %s %s %s %s %s" % (hx(T_ + "/usr"), hx(T_ + "/etc"), hx("c"), hx("conf"), hx(d_), hx(c_)), "dumpx 1", "free 1",
                "readhist 2 %s %s %s %s %s %s" % (hx(T_ + "/usr"), hx(T_ + "/etc"), hx("c"), hx("conf"), hx(d_), hx(c_))] + ["free %d" % q for q in range(2, 9)]
         lcases.append((j, sc))
     lres = core.run_cases(exe, lcases)
@@ -276,7 +279,7 @@ def check_c04(exe, tier, seed, verdict):
             continue          # reported above with the failing input
         verdict.violation("C04:envelope:%s" % e["rc"], {"kind": "class", "event": e}, "outside the envelope: %s (%d inputs)" % (json.dumps(e), e["n"]))
     cov = {"evaluations": len(inputs), "distinct_nontrivial": n_ok + n_parse,
-           "rule": "(plus a sample of the inputs as the LAST of three to five drop-ins of a layered read, merged-result and history entry points; plus five big files - 60000 entries, 30000 sections, 50000 comment lines, 50000 continuation lines, one line of 3 MB - read plainly and under JOIN_SAME_ENTRIES on a thread with a 256 KiB stack; plus every file of <= 4 lines over a pool in which the library's own marker word _none_ appears as section name, key and value, and that word and printf conversion specifications as value, key, section name, comment, continuation - among the mutations) every byte string of length <= %d over the %d-symbol structural alphabet (blank, tab, newline, = : # ; \" [ ] a 1, NUL, 0xff): %d strings with delimiter '=' comment '#', a sample with the other parameter sets (blank / mixed / no delimiters, JOIN_SAME_ENTRIES, PYTHON_STYLE); %d byte-level mutations (insert/delete/replace/truncate, 1-3 edits) of random conventional files of all grammars; random byte strings; very long lines of structural characters around BUFSIZ; %d cardinality sweeps (every count 0..%d, and around 128/256/512/1024, of: distinct sections with 0/1/2 keys, keys without / in one section, repetitions of one key, continuation lines, comment lines, keys without delimiter, re-opened sections - the counts at which the object's arrays and lists grow); %d run-length sweeps (one structural character repeated n times behind a key / a delimiter / a header or in front of an entry, n across the growth steps 120, 240, ... 7680, 8192 of the line buffer, with and without final newline, plain / blank / mixed delimiter sets). Each input: read; on success every listing, 17 getter calls on every key, 4 merges, write, re-read. Aggregated event classes validated by Envelope.tla; ASan/UBSan abort = violation with the input. non-trivial = read succeeded with >= 1 entry (%d) or failed with a parse error (%d)." % (
+           "rule": "(plus a sample of the inputs as the LAST of three to five drop-ins of a layered read behind a main file with group-less keys / with sections only / without content in turn, merged-result (used through every listing and getter afterwards) and history entry points; plus five big files - 60000 entries, 30000 sections, 50000 comment lines, 50000 continuation lines, one line of 3 MB - read plainly and under JOIN_SAME_ENTRIES on a thread with a 256 KiB stack; plus every file of <= 4 lines over a pool in which the library's own marker word _none_ appears as section name, key and value, and that word and printf conversion specifications as value, key, section name, comment, continuation - among the mutations) every byte string of length <= %d over the %d-symbol structural alphabet (blank, tab, newline, = : # ; \" [ ] a 1, NUL, 0xff): %d strings with delimiter '=' comment '#', a sample with the other parameter sets (blank / mixed / no delimiters, JOIN_SAME_ENTRIES, PYTHON_STYLE); %d byte-level mutations (insert/delete/replace/truncate, 1-3 edits) of random conventional files of all grammars; random byte strings; very long lines of structural characters around BUFSIZ; %d cardinality sweeps (every count 0..%d, and around 128/256/512/1024, of: distinct sections with 0/1/2 keys, keys without / in one section, repetitions of one key, continuation lines, comment lines, keys without delimiter, re-opened sections - the counts at which the object's arrays and lists grow); %d run-length sweeps (one structural character repeated n times behind a key / a delimiter / a header or in front of an entry, n across the growth steps 120, 240, ... 7680, 8192 of the line buffer, with and without final newline, plain / blank / mixed delimiter sets). Each input: read; on success every listing, 17 getter calls on every key, 4 merges, write, re-read. Aggregated event classes validated by Envelope.tla; ASan/UBSan abort = violation with the input. non-trivial = read succeeded with >= 1 entry (%d) or failed with a parse error (%d)." % (
                maxlen, len(alpha), nstr, nmut, ncount, 72 if tier == "quick" else 300, nrun, n_ok, n_parse),
            "samples": events[:4], "exhaustive": False, "event_classes": len(events), "crashing_inputs": crashes,
            "trusted_base": ["gcc ASan/UBSan", "driver watchdog (20 s alarm per case)", "TLC 1.8.0 (envelope classes)"]}
